@@ -13,15 +13,17 @@ Proof.
   intros sigs self k K o Hwf Hne Hs Hd H.
   destruct (run_entry_out sigs self k K o Hwf Hne Hs H) as [a [r [Ea [Hself [Hok [Hb [Ho [Hpos Hkw]]]]]]]].
   set (f := nf_of sigs a r) in *.
-  assert (Hc : kf02_class sigs k K = true) by (unfold dom_fwd in Hd; apply negb_false_iff in Hd; exact Hd).
-  destruct (drop_outside sigs f k K Hok Hb eq_refl Hpos Hkw Hc) as [m0 [Efm [x [HxK Hx]]]].
-  rewrite Efm in Ho. unfold out_exit in Ho. eexists _, _, _. split; [exact Ho|].
+  assert (Hc : kf31_class sigs k K = true) by (unfold dom_fwd in Hd; apply negb_false_iff in Hd; exact Hd).
+  destruct (drop_outside sigs f k K Hok Hb eq_refl Hpos Hkw Hc) as [m0 [Efm [x [HxK [Hxk Hx]]]]].
+  rewrite Efm in Ho. unfold out_exit, out_M in Ho. eexists _, _, _. split; [exact Ho|].
   exists x. split; auto. split; [|split].
   - intro Hin. apply in_app_iff in Hin. destruct Hin as [Hin|Hin].
     + unfold selfs in Hin. destruct (nf_self f); simpl in Hin; [destruct Hin as [E|[]]; discriminate|contradiction].
     + apply in_map_iff in Hin. destruct Hin as [p [E Hp]]. apply in_seq in Hp. apply (Hx p); [lia|exact E].
-  - intros s Hin. contradiction.
-  - intros e Hin. apply in_map_iff in Hin. destruct Hin as [p [<- Hp]]. apply in_seq in Hp. simpl. apply Hx. lia.
+  - intros s Hin. apply in_map_iff in Hin. destruct Hin as [m [E Hm]]. injection E as -> _. contradiction.
+  - intros e Hin. apply in_app_iff in Hin. destruct Hin as [Hin|Hin]; apply in_map_iff in Hin.
+    + destruct Hin as [p [<- Hp]]. apply in_seq in Hp. simpl. apply Hx. lia.
+    + destruct Hin as [m [<- Hm]]. simpl. intro E. injection E as ->. contradiction.
 Qed.
 
 (* ---------- the arity / keyword filter ---------- *)
@@ -85,11 +87,11 @@ Proof.
 Qed.
 
 Theorem admit_partial : forall sigs self k K s key fpos fkw, all_wf sigs -> all_self sigs self -> In s sigs ->
-  accepts s k K = true -> dom_fwd sigs k K = true ->
+  accepts s k K = true ->
   run_entry sigs self k K = ROut (OCall key fpos fkw) ->
   arity_ok s key = true /\ (forall n, In n (key_names key) -> In n (sig_kw_names s)).
 Proof.
-  intros sigs self k K s key fpos fkw Hwf Hs Hin Hacc Hd H.
+  intros sigs self k K s key fpos fkw Hwf Hs Hin Hacc H.
   assert (Hsne : sigs <> []) by (intro E; rewrite E in Hin; contradiction).
   destruct (run_entry_out sigs self k K _ Hwf Hsne Hs H) as [a [r [Ea [Hself [Hok [Hb [Ho [Hpos Hkw]]]]]]]].
   set (f := nf_of sigs a r) in *.
@@ -132,46 +134,22 @@ Proof.
     unfold sig_kw_names, sig_kw_params. apply in_map_iff. exists q. split; auto. apply filter_In. split; [eapply nth_error_In; eauto|].
     unfold is_positional. destruct (p_kind q) eqn:Ekq; simpl; auto; exfalso; try (apply Hk; reflexivity).
     assert (is_pos_name sigs m = true) by (apply is_pos_name_iff; exists s, j, q; auto). congruence. }
-  unfold arity_ok.
-  destruct (first_missing f k K) as [m0|] eqn:Efm.
-  - (* early exit *)
-    destruct (first_missing_some f k K m0 Hok Hb Efm) as [[Hr Hm] [Hun Hlt]].
-    unfold out_exit in Ho. injection Ho as -> _ _.
-    rewrite <- (app_nil_r (map _ (seq 0 m0))).
-    change (@nil keyent) with (map (fun m => mkKE (Some m) (nf_lf f (CName m)) (SKw m)) []).
-    rewrite key_nargs_out, key_names_out.
-    (* in the domain no keyword-only argument is supplied *)
-    assert (HkwK : forall m, In m K -> is_pos_name sigs m = true).
-    { intros m HK. destruct (is_pos_name sigs m) eqn:E; auto. exfalso.
-      unfold dom_fwd, kf02_class in Hd. apply negb_true_iff in Hd. apply andb_false_iff in Hd. destruct Hd as [Hd|Hd].
-      - apply Nat.ltb_ge in Hd.
-        pose proof (exit_lt sigs f k K Hok Hb eq_refl Hpos Hkw m0 Efm). lia.
-      - apply orb_false_iff in Hd. destruct Hd as [Hd _]. apply negb_false_iff in Hd.
-        destruct (filter (fun n => negb (is_pos_name sigs n)) K) as [|y l] eqn:Ef; [|discriminate].
-        assert (In m (filter (fun n => negb (is_pos_name sigs n)) K)) by (apply filter_In; split; auto; rewrite E; reflexivity).
-        rewrite Ef in H0. contradiction. }
-    split; [|intros n []].
-    apply andb_true_iff. split; [apply andb_true_iff; split|].
-    + apply Nat.leb_le. destruct (Nat.le_gt_cases (sig_req_pos s) m0); auto. exfalso.
-      destruct (Hreq m0 H0) as [_ E]. congruence.
-    + apply Nat.leb_le. destruct m0 as [|m']; [lia|]. assert (m' < sig_max_pos s) by (apply Hsup; [lia|apply Hlt; lia]). lia.
-    + apply forallb_forall. intros m Hmr. exfalso. destruct (Hrn m Hmr) as [HK Hnp]. rewrite (HkwK m HK) in Hnp. discriminate.
-  - (* final call *)
-    pose proof (first_missing_none f k K Hok Hb Efm) as Hall.
-    unfold out_full in Ho. injection Ho as -> _ _.
-    rewrite key_nargs_out, key_names_out. split.
-    + apply andb_true_iff. split; [apply andb_true_iff; split|].
-      * apply Nat.leb_le. destruct (Nat.le_gt_cases (sig_req_pos s) (nf_n f)); auto. exfalso.
-        assert (sig_max_pos s <= nf_n f) by (simpl; unfold npos; apply list_max_ge; apply in_map; exact Hin).
-        pose proof (sig_req_le_max s). lia.
-      * apply Nat.leb_le.
-        assert (G : forall n0, n0 = nf_n f -> n0 <= sig_max_pos s).
-        { intros n0 E. destruct n0 as [|n']; [lia|].
-          assert (n' < sig_max_pos s) by (apply Hsup; [lia|apply Hall; lia]). lia. }
-        apply G. reflexivity.
-      * apply forallb_forall. intros m Hm. destruct (Hrn m Hm) as [HK Hnp].
-        apply (memb_In Nat.eqb Nat.eqb_eq).
-        apply (kw_supplied_set sigs f k K Hb Hpos Hkw). apply filter_In. split; auto. rewrite Hnp. reflexivity.
-    + intros m Hm. apply (kw_supplied_set sigs f k K Hb Hpos Hkw) in Hm. apply filter_In in Hm. destruct Hm as [HK Hnp].
-      apply negb_true_iff in Hnp. apply Hkn; auto.
+  (* both kinds of call have the same shape: the first M positions, all supplied, and every supplied keyword *)
+  assert (HM : exists M, M <= nf_n f /\ (forall p, p < M -> supplied f k K p = true)
+                        /\ (M < nf_n f -> supplied f k K M = false) /\ OCall key fpos fkw = out_M f k K M).
+  { destruct (first_missing f k K) as [m0|] eqn:Efm.
+    - destruct (first_missing_some f k K m0 Hok Hb Efm) as [[Hr Hm] [Hun Hlt]].
+      exists m0. repeat split; auto; lia.
+    - exists (nf_n f). repeat split; auto; try lia. apply (first_missing_none f k K Hok Hb Efm). }
+  destruct HM as [M [HMn [Hlt [Hun HoM]]]]. unfold out_M in HoM. injection HoM as -> _ _.
+  unfold arity_ok. rewrite key_nargs_out, key_names_out. split.
+  - apply andb_true_iff. split; [apply andb_true_iff; split|].
+    + apply Nat.leb_le. destruct (Nat.le_gt_cases (sig_req_pos s) M); auto. exfalso.
+      destruct (Hreq M H0) as [HMlt E]. rewrite (Hun HMlt) in E. discriminate.
+    + apply Nat.leb_le. destruct M as [|M']; [lia|]. assert (M' < sig_max_pos s) by (apply Hsup; [lia|apply Hlt; lia]). lia.
+    + apply forallb_forall. intros m Hm. destruct (Hrn m Hm) as [HK Hnp].
+      apply (memb_In Nat.eqb Nat.eqb_eq).
+      apply (kw_supplied_set sigs f k K Hb Hpos Hkw). apply filter_In. split; auto. rewrite Hnp. reflexivity.
+  - intros m Hm. apply (kw_supplied_set sigs f k K Hb Hpos Hkw) in Hm. apply filter_In in Hm. destruct Hm as [HK Hnp].
+    apply negb_true_iff in Hnp. apply Hkn; auto.
 Qed.
